@@ -5,6 +5,7 @@ use std::sync::Arc;
 use vstd::std_specs::cmp::*;
 verus! {
 //@ include prelude/numeric_id.vs
+broadcast use {nid::ax_id_eq, nid::ax_id_cmp, nid::ax_id_obeys_eq, nid::ax_id_obeys_cmp, nid::ax_id_obeys_partial_cmp, nid::ax_id_partial_cmp};
 //@ idtype Value Timestamp TableId ColumnId AtomId RuleId
 
 // ---- trusted environment ---------------------------------------------------------------------------
